@@ -339,7 +339,15 @@ func editSQL(t *rapid.T, q string) string {
 		return refs[rapid.IntRange(0, len(refs)-1).Draw(t, "ref")]
 	}
 	unknownColl := []string{"mycoll", "nosuch", "UTF16", "NOCASE", "rtrim", "binary", "\"\"", "[my coll]", "nocase_"}
-	switch rapid.IntRange(-1, 6).Draw(t, "edit") {
+	switch rapid.IntRange(-1, 8).Draw(t, "edit") {
+	case 7, 8:
+		// a DEFAULT for one of the later columns: rows shorter than the
+		// column list are completed from it
+		if len(refs) == 0 {
+			return q
+		}
+		r := refs[len(refs)-1-rapid.IntRange(0, min(2, len(refs)-1)).Draw(t, "lateref")]
+		return q[:r[1]] + rapid.SampledFrom([]string{" DEFAULT TRUE", " DEFAULT FALSE", " DEFAULT true", " DEFAULT 010", " DEFAULT 'x'", " INT DEFAULT '1e999'", " DEFAULT abc", " TEXT DEFAULT FALSE"}).Draw(t, "dflt") + q[r[1]:]
 	case -1, 0, 1:
 		if len(refs) == 0 {
 			return q
@@ -370,7 +378,7 @@ func editSQL(t *rapid.T, q string) string {
 			return q
 		}
 		r := pick()
-		return q[:r[1]] + rapid.SampledFrom([]string{" DESC", " ASC", " TEXT", " INTEGER", " DEFAULT 'x'", " NOT NULL"}).Draw(t, "suffix") + q[r[1]:]
+		return q[:r[1]] + rapid.SampledFrom([]string{" DESC", " ASC", " TEXT", " INTEGER", " DEFAULT 'x'", " NOT NULL", " DEFAULT TRUE", " DEFAULT FALSE", " DEFAULT 010", " DEFAULT NULL", " INT DEFAULT '1e999'", " DEFAULT x", " DEFAULT -1"}).Draw(t, "suffix") + q[r[1]:]
 	default:
 		if i := strings.Index(q, "COLLATE "); i >= 0 {
 			j := i + len("COLLATE ")
